@@ -315,6 +315,10 @@ class Epoch(object):
         77.184
         """
 
+        # An Epoch given as input may be this very object ('e.set(e)'): read
+        # its value before cleaning up the internal parameters
+        if len(args) == 1 and isinstance(args[0], Epoch):
+            args = (args[0]._jde,)
         # Clean up the internal parameters
         self._jde = 0.0
         # If no arguments are given, return. Internal values are 0.0
